@@ -258,3 +258,10 @@ Theorem C14_every_table_row : forall l0 rest t,
   exists row, nth_error (filter is_transb (l0 :: rest)) t = Some row /\ parse_stt t (join_nl (l0 :: rest)) = parse_row row.
 Proof. exact every_table_row. Qed.
 Print Assumptions C14_every_table_row.
+
+(* every line of the row grammar (C14_parse_row_exact) whose guard text does not begin with '*' contains an arrow and no
+   "[*]" - it is one of the lines parse_stt counts, so C14_description_rows applies to it wherever it stands in a
+   description (a guard written "[*]" would read as the initial / terminate marker: guard_ok excludes exactly that) *)
+Theorem C14_grammar_line_is_transition_line : forall l, wf_line l -> guard_ok l -> is_transb (render l) = true.
+Proof. exact grammar_line_is_transition_line. Qed.
+Print Assumptions C14_grammar_line_is_transition_line.
